@@ -88,9 +88,11 @@ theorem scope_missing {p : PeerTracker} {r : Req} (hf : Fresh p r) (key : Option
 
 /-- `prepareQuery` of an accepted request (hooks validated it, did not pause it, no error) whose
 extensions decode to `w`: no response yet, and the tracker is set up as `w` says. -/
-theorem prepare_ok (p : PeerTracker) (r : Req) (e : Ext) (w : Want) (hw : e.want? = some w)
-    (hf : Fresh p r) :
-    ∃ p1, prepareQuery p r {} e = (p1, [[]], .queued) ∧
+theorem prepare_ok' (p : PeerTracker) (r : Req) (e : Ext) (w : Want) (hw : e.want? = some w)
+    (hf : Fresh p r) (hp : Bool) :
+    ∃ p1, prepareQuery p r { paused := hp } e
+        = (p1, [if hp then [.status .paused] else []], if hp then .paused else .queued) ∧
+      aget p1.dedupKeys r = w.key ∧ (∀ x, x ≠ r → aget p1.dedupKeys x = aget p.dedupKeys x) ∧
       cnt p1 r = 0 ∧ skipOf p1 r = w.skip ∧ missOf p1 r = false ∧
       ∀ c, (rcOf p1 r c != 0) = (w.ignore.contains c || inUse p w.key c) := by
   -- the state after the three stages, whatever their presence
@@ -102,6 +104,7 @@ theorem prepare_ok (p : PeerTracker) (r : Req) (e : Ext) (w : Want) (hw : e.want
     · simp [missOf, h3, foldl_record_missing, scope_missing hf]
     · intro c
       simp only [rcOf, h3, foldl_record_refcount, inUse, Bool.or_comm]
+  have hdk0 := hf.2.2.1
   obtain ⟨ek, ei, es⟩ := e
   cases ek with
   | bad => simp [Ext.want?] at hw
@@ -113,19 +116,19 @@ theorem prepare_ok (p : PeerTracker) (r : Req) (e : Ext) (w : Want) (hw : e.want
       | bad => simp [Ext.want?] at hw
       | absent =>
         simp only [Ext.want?, Option.some.injEq] at hw; subst hw
-        exact ⟨p, by simp [prepareQuery, runStages, runStage, stages, GS.Generated.PrepareQuery.stages], fin p (V_none hf)⟩
+        exact ⟨p, by cases hp <;> simp [prepareQuery, runStages, runStage, stages, GS.Generated.PrepareQuery.stages], by simp [PeerTracker.dedupKey, PeerTracker.ignoreBlocks, PeerTracker.skipFirstBlocks, setTracker_dedupKeys, aget_aset, hdk0], by intro x hx; simp [PeerTracker.dedupKey, PeerTracker.ignoreBlocks, PeerTracker.skipFirstBlocks, setTracker_dedupKeys, aget_aset, Ne.symm hx], fin p (V_none hf)⟩
       | ok n =>
         simp only [Ext.want?, Option.some.injEq] at hw; subst hw
-        exact ⟨_, by simp [prepareQuery, runStages, runStage, stages, GS.Generated.PrepareQuery.stages], fin _ (V_skip (V_none hf) n)⟩
+        exact ⟨_, by cases hp <;> simp [prepareQuery, runStages, runStage, stages, GS.Generated.PrepareQuery.stages], by simp [PeerTracker.dedupKey, PeerTracker.ignoreBlocks, PeerTracker.skipFirstBlocks, setTracker_dedupKeys, aget_aset, hdk0], by intro x hx; simp [PeerTracker.dedupKey, PeerTracker.ignoreBlocks, PeerTracker.skipFirstBlocks, setTracker_dedupKeys, aget_aset, Ne.symm hx], fin _ (V_skip (V_none hf) n)⟩
     | ok ls =>
       cases es with
       | bad => simp [Ext.want?] at hw
       | absent =>
         simp only [Ext.want?, Option.some.injEq] at hw; subst hw
-        exact ⟨_, by simp [prepareQuery, runStages, runStage, stages, GS.Generated.PrepareQuery.stages], fin _ (V_ignore (V_none hf) ls)⟩
+        exact ⟨_, by cases hp <;> simp [prepareQuery, runStages, runStage, stages, GS.Generated.PrepareQuery.stages], by simp [PeerTracker.dedupKey, PeerTracker.ignoreBlocks, PeerTracker.skipFirstBlocks, setTracker_dedupKeys, aget_aset, hdk0], by intro x hx; simp [PeerTracker.dedupKey, PeerTracker.ignoreBlocks, PeerTracker.skipFirstBlocks, setTracker_dedupKeys, aget_aset, Ne.symm hx], fin _ (V_ignore (V_none hf) ls)⟩
       | ok n =>
         simp only [Ext.want?, Option.some.injEq] at hw; subst hw
-        exact ⟨_, by simp [prepareQuery, runStages, runStage, stages, GS.Generated.PrepareQuery.stages],
+        exact ⟨_, by cases hp <;> simp [prepareQuery, runStages, runStage, stages, GS.Generated.PrepareQuery.stages], by simp [PeerTracker.dedupKey, PeerTracker.ignoreBlocks, PeerTracker.skipFirstBlocks, setTracker_dedupKeys, aget_aset, hdk0], by intro x hx; simp [PeerTracker.dedupKey, PeerTracker.ignoreBlocks, PeerTracker.skipFirstBlocks, setTracker_dedupKeys, aget_aset, Ne.symm hx],
           fin _ (V_skip (V_ignore (V_none hf) ls) n)⟩
   | ok k =>
     cases ei with
@@ -135,20 +138,28 @@ theorem prepare_ok (p : PeerTracker) (r : Req) (e : Ext) (w : Want) (hw : e.want
       | bad => simp [Ext.want?] at hw
       | absent =>
         simp only [Ext.want?, Option.some.injEq] at hw; subst hw
-        exact ⟨_, by simp [prepareQuery, runStages, runStage, stages, GS.Generated.PrepareQuery.stages], fin _ (V_dedup hf k)⟩
+        exact ⟨_, by cases hp <;> simp [prepareQuery, runStages, runStage, stages, GS.Generated.PrepareQuery.stages], by simp [PeerTracker.dedupKey, PeerTracker.ignoreBlocks, PeerTracker.skipFirstBlocks, setTracker_dedupKeys, aget_aset, hdk0], by intro x hx; simp [PeerTracker.dedupKey, PeerTracker.ignoreBlocks, PeerTracker.skipFirstBlocks, setTracker_dedupKeys, aget_aset, Ne.symm hx], fin _ (V_dedup hf k)⟩
       | ok n =>
         simp only [Ext.want?, Option.some.injEq] at hw; subst hw
-        exact ⟨_, by simp [prepareQuery, runStages, runStage, stages, GS.Generated.PrepareQuery.stages], fin _ (V_skip (V_dedup hf k) n)⟩
+        exact ⟨_, by cases hp <;> simp [prepareQuery, runStages, runStage, stages, GS.Generated.PrepareQuery.stages], by simp [PeerTracker.dedupKey, PeerTracker.ignoreBlocks, PeerTracker.skipFirstBlocks, setTracker_dedupKeys, aget_aset, hdk0], by intro x hx; simp [PeerTracker.dedupKey, PeerTracker.ignoreBlocks, PeerTracker.skipFirstBlocks, setTracker_dedupKeys, aget_aset, Ne.symm hx], fin _ (V_skip (V_dedup hf k) n)⟩
     | ok ls =>
       cases es with
       | bad => simp [Ext.want?] at hw
       | absent =>
         simp only [Ext.want?, Option.some.injEq] at hw; subst hw
-        exact ⟨_, by simp [prepareQuery, runStages, runStage, stages, GS.Generated.PrepareQuery.stages], fin _ (V_ignore (V_dedup hf k) ls)⟩
+        exact ⟨_, by cases hp <;> simp [prepareQuery, runStages, runStage, stages, GS.Generated.PrepareQuery.stages], by simp [PeerTracker.dedupKey, PeerTracker.ignoreBlocks, PeerTracker.skipFirstBlocks, setTracker_dedupKeys, aget_aset, hdk0], by intro x hx; simp [PeerTracker.dedupKey, PeerTracker.ignoreBlocks, PeerTracker.skipFirstBlocks, setTracker_dedupKeys, aget_aset, Ne.symm hx], fin _ (V_ignore (V_dedup hf k) ls)⟩
       | ok n =>
         simp only [Ext.want?, Option.some.injEq] at hw; subst hw
-        exact ⟨_, by simp [prepareQuery, runStages, runStage, stages, GS.Generated.PrepareQuery.stages],
+        exact ⟨_, by cases hp <;> simp [prepareQuery, runStages, runStage, stages, GS.Generated.PrepareQuery.stages], by simp [PeerTracker.dedupKey, PeerTracker.ignoreBlocks, PeerTracker.skipFirstBlocks, setTracker_dedupKeys, aget_aset, hdk0], by intro x hx; simp [PeerTracker.dedupKey, PeerTracker.ignoreBlocks, PeerTracker.skipFirstBlocks, setTracker_dedupKeys, aget_aset, Ne.symm hx],
           fin _ (V_skip (V_ignore (V_dedup hf k) ls) n)⟩
+
+theorem prepare_ok (p : PeerTracker) (r : Req) (e : Ext) (w : Want) (hw : e.want? = some w)
+    (hf : Fresh p r) :
+    ∃ p1, prepareQuery p r {} e = (p1, [[]], .queued) ∧
+      cnt p1 r = 0 ∧ skipOf p1 r = w.skip ∧ missOf p1 r = false ∧
+      ∀ c, (rcOf p1 r c != 0) = (w.ignore.contains c || inUse p w.key c) := by
+  obtain ⟨p1, h1, _, _, h2⟩ := prepare_ok' p r e w hw hf false
+  exact ⟨p1, by simpa using h1, h2⟩
 
 /-! ### the operations of a thread are `Good` -/
 
